@@ -36,9 +36,9 @@ REQUIRED = [
     'condorcet_additive_merged', 'rankedToCondorcet_additive_nobottom', 'rankedToCondorcet_additive',
     'condorcet_single', 'pairwise_le_total', 'rankedToCondorcet_pairwise_le_total', 'condorcet_irreflexive',
     'condorcet_is_dict', 'pairwise_le_total_needs_nodup', 'scoreToRanked_eq_accum', 'scoreToRanked_sum',
-    'scoreToRanked_additive', 'scoreToRanked_additive_merged', 'scoreToRanked_additive_none',
-    'scoreToRanked_weight_conserved', 'scoreToRanked_is_dict', 'scoreToApproval_eq_accum', 'scoreToApproval_sum',
-    'scoreToApproval_additive', 'scoreToApproval_additive_merged', 'scoreToApproval_image',
+    'scoreToRanked_additive', 'scoreToRanked_additive_merged', 'scoreToRanked_additive_none', 'scoreToRanked_image',
+    'scoreToRanked_augment', 'scoreToRanked_weight_conserved', 'scoreToRanked_is_dict', 'scoreToApproval_eq_accum',
+    'scoreToApproval_sum', 'scoreToApproval_additive', 'scoreToApproval_additive_merged', 'scoreToApproval_image',
     'scoreToApproval_weight_conserved', 'scoreToApproval_is_dict', 'invertedSimple_image', 'invertedSimple_toFun',
     'invertedSimple_additive_merged', 'invertedApproval_sum', 'invertedApproval_image', 'awf_mergeDict',
     'invertedApproval_additive_merged', 'invertedApproval_weight_conserved', 'voteTotals_sum', 'voteTotals_additive',
@@ -47,10 +47,12 @@ REQUIRED = [
     'subsetted_additive_merged', 'subsetted_weight_conserved', 'subsetted_is_dict', 'subsetSimple_image',
     'subsetApproval_image', 'subsetRanked_image', 'subsetScore_image', 'subsetted_weight_conserved_ranked',
     'subsetted_weight_conserved_approval', 'subsetted_weight_conserved_score', 'mapKey_image',
-    'individualToParty_sum', 'individualToParty_rejects', 'individualToParty_additive_merged', 'rounded_image',
-    'rounded_value', 'rounded_additive_disjoint', 'rounded_not_additive_witness', 'chain_nil', 'chain_cons',
-    'chain_append', 'conv_chain', 'approvalUnsplit_sum', 'chain_ranked_approval_simple',
-    'chain_ranked_approval_simple_additive', 'chain_two_additive', 'chain_score_approval_simple_additive',
+    'individualToParty_sum', 'individualToParty_rejects', 'individualToParty_additive_merged', 'groupByParty_image',
+    'groupByParty_additive_disjoint', 'rounded_image', 'rounded_value', 'rounded_additive_disjoint',
+    'rounded_not_additive_witness', 'chain_nil', 'chain_cons', 'chain_append', 'conv_chain', 'approvalUnsplit_sum',
+    'chain_ranked_approval_simple', 'chain_ranked_approval_simple_additive', 'chain_two_additive',
+    'chain_score_approval_simple_additive', 'subsettedNested_image', 'invertedApproval_awf',
+    'invertedApproval_top_sum',
 ]
 TRUSTED = ['Python set/dict iteration order of converter outputs is not observable: outputs compare as maps, '
            'frozensets as sorted id lists']
@@ -70,7 +72,7 @@ REQUIRED_COUNTERS = (['conv:' + c for c in CONVERTERS] + ['scorer:' + s for s in
                      + ['split', 'unsplit', 'condorcet_bottom', 'condorcet_nobottom', 'unscored_value',
                         'shared_rank', 'truncated', 'empty_ballot', 'overlap_AB', 'shared_image',
                         'fraction_weight', 'same_universe', 'rounded_disjoint', 'rounded_overlap',
-                        'borda_too_many_ranks', 'duplicate_candidate', 'util'])
+                        'borda_too_many_ranks', 'duplicate_candidate', 'util', 'decimal_weight'])
 RULE = ('2-5 candidates with multi-character names; ranked ballots with truncation, shared ranks (incl. one-element and empty '
         'sets), repeated candidates and the empty ballot; approval and score ballots incl. empty ones; weights from small integers, '
         'zero, Fractions and (rarely) negatives; each profile of 1-7 ballots is split into A and B with ballots that occur in both '
@@ -80,7 +82,7 @@ NOT_VERIFIED = ['set/dict iteration order of outputs (outputs compare as maps)',
                 'Decimal division of RoundedVotes for Fractions is taken as exact (denominators in the generator are small)',
                 'Person/PoliticalParty objects are modelled by ids; the mapper reads one attribute'] + \
                ['UNMODELLED: ' + u for u in UNMODELLED]
-EXHAUSTIVE = {'thorough': False}
+EXHAUSTIVE = {'thorough': False}     # small-scope enumeration is added in the thorough tier, the random part stays
 
 UNIVERSE_DEPENDENT = ('RankedToPositionalVotes', 'RankedToCondorcetVotes', 'ScoreToRankedVotes', 'InvertedApprovalVotes')
 
@@ -100,9 +102,21 @@ def num(s):
     return Fraction(s)
 
 
-def py_num(s):
+def py_num(s, dec=False):
     f = Fraction(s)
-    return int(f) if f.denominator == 1 else f
+    if f.denominator == 1:
+        return int(f)
+    if dec and _dec_ok(f):
+        return Decimal(f.numerator) / Decimal(f.denominator)
+    return f
+
+
+def _dec_ok(f):
+    d = f.denominator
+    for q in (2, 5):
+        while d % q == 0:
+            d //= q
+    return d == 1 and len(str(f.denominator)) < 10
 
 
 def ns(x):
@@ -114,7 +128,8 @@ def ns(x):
 
 class Ctx:
     """per-case python objects for ids (Person / PoliticalParty objects for the party converters)"""
-    def __init__(self, spec):
+    def __init__(self, spec, dec=False):
+        self.dec = dec
         self.persons = {}
         self.parties = {}
         self.back = {}
@@ -183,8 +198,8 @@ def key_py(kind, k, ctx):
 
 def prof_py(kind, prof, ctx):
     if kind == 'nested':
-        return {dname(d): {ctx.cand(c): py_num(w) for c, w in dv} for d, dv in prof}
-    return {key_py(kind, k, ctx): py_num(w) for k, w in prof}
+        return {dname(d): {ctx.cand(c): py_num(w, ctx.dec) for c, w in dv} for d, dv in prof}
+    return {key_py(kind, k, ctx): py_num(w, ctx.dec) for k, w in prof}
 
 
 def enc_key(k, ctx):
@@ -327,7 +342,7 @@ def impl(case):
         return guarded(lambda: {
             'all_ranked_candidates': [enc_key(c, ctx) for c in vu.all_ranked_candidates(votes)],
             'all_rankings': [[enc_key(c, ctx), r, ns(n)] for c, r, n in vu.all_rankings(votes)]})
-    ctx = Ctx(case['conv'])
+    ctx = Ctx(case['conv'], bool(case.get('dec')))
     try:
         conv = build_conv(case['conv'], ctx)
     except Exception as e:      # noqa
@@ -816,7 +831,7 @@ def nontrivial(case, obs):
 def describe(case):
     if case['op'] == 'util':
         return f"util.all_rankings({prof_py('ranked', case['votes'], Ctx({'c': 'none'}))!r})"
-    ctx = Ctx(case['conv'])
+    ctx = Ctx(case['conv'], bool(case.get('dec')))
     return (f"{json.dumps(case['conv'])}.convert on A={prof_py(case['kind'], case['A'], ctx)!r}, "
             f"B={prof_py(case['kind'], case['B'], ctx)!r}, A+B={prof_py(case['kind'], case['AB'], ctx)!r}")
 
@@ -850,7 +865,12 @@ def dedupe(prof):
     return merge(prof, [])
 
 
-def finish(conv, kind, A, B, tags):
+DEC_OK = ('RankedToFirstPreference', 'RankedToFirstNPreferences', 'RankedToPresenceCounts', 'RankedToApprovalVotes',
+          'RankedToCondorcetVotes', 'ScoreToRankedVotes', 'ScoreToApprovalVotesThreshold', 'SubsettedVotes', 'VoteTotals',
+          'ConstituencyTotals', 'InvertedSimpleVotes', 'InvertedApprovalVotes', 'IndividualToPartyVotes', 'GroupVotesByParty')
+
+
+def finish(conv, kind, A, B, tags, dec=False):
     if kind == 'nested':
         A, B = merge_nested(A, []), merge_nested(B, [])
         AB = merge_nested(A, B)
@@ -861,6 +881,12 @@ def finish(conv, kind, A, B, tags):
         singles = [[[k, '1']] for k, _ in AB][:6]
     case = {'op': 'convert', 'conv': conv, 'kind': kind, 'A': A, 'B': B, 'AB': AB, 'singles': singles,
             '_tags': list(tags)}
+    if dec and conv['c'] in DEC_OK or (dec and conv['c'] == 'ApprovalToSimpleVotes' and not conv['split']):
+        ws = [w for _, w in A + B + AB] if kind != 'nested' else [w for _, dv in A + B + AB for _, w in dv]
+        if all(Fraction(w).denominator == 1 or _dec_ok(Fraction(w)) for w in ws) and \
+                any(Fraction(w).denominator != 1 for w in ws):
+            case['dec'] = True
+            case['_tags'].append('decimal_weight')
     return tag_case(case)
 
 
@@ -1164,7 +1190,7 @@ def gen_case(rng, name=None, tags=()):
         spec, kind = rnd_spec(rng, name, m)
     if kind == 'nested':
         A, B = rnd_nested(rng, m)
-        return finish(spec, kind, A, B, tags)
+        return finish(spec, kind, A, B, tags, dec=rng.random() < 0.3)
     n = rng.randint(1, 6)
     ballots = rnd_ballots(rng, kind, m, n)
     split_frac = any(s['c'] == 'ApprovalToSimpleVotes' and s['split'] for s in _flat(spec))
@@ -1185,7 +1211,7 @@ def gen_case(rng, name=None, tags=()):
     if 'RoundedVotes' in names and rng.random() < 0.5:
         ka = {jkey(k) for k, _ in A}
         B = [e for e in B if jkey(e[0]) not in ka]
-    return finish(spec, kind, A, B, tags)
+    return finish(spec, kind, A, B, tags, dec=rng.random() < 0.3)
 
 
 def directed(rng):
@@ -1243,13 +1269,15 @@ def directed(rng):
     yield finish({'c': 'RoundedVotes', 'decimals': 0}, 'simple', [[0, '1/2'], [1, '1/3']], [[0, '1/2'], [3, '7']], ['directed'])
     yield finish({'c': 'Chain', 'cs': [{'c': 'RankedToApprovalVotes'}, {'c': 'ApprovalToSimpleVotes', 'split': False}]}, 'ranked',
                  [[[0, 1], '2']], [[[1, 0], '3']], ['directed'])
+    yield finish({'c': 'RankedToFirstPreference'}, 'ranked', [[[0, 1], '1/2'], [[1], '3']], [[[0, 2], '5/4'], [[0, 1], '1/4']],
+                 ['directed'], dec=True)
     for votes in ([[[0, 1, 2], '2'], [[2], '1'], [[1, 3], '1/2']], [[[{'set': [1]}, 0], '1'], [[], '3'], [[2, 0, 1], '2']]):
         yield {'op': 'util', 'votes': votes, '_tags': ['util']}
 
 
 def generate(rng, tier):
     yield from directed(rng)
-    N = 1300 if tier == 'quick' else 40000
+    N = 3500 if tier == 'quick' else 60000
     for _ in range(N):
         yield gen_case(rng)
     for _ in range(40 if tier == 'quick' else 2000):
@@ -1277,6 +1305,18 @@ def exhaustive():
         for a, b in itertools.product(ballots, repeat=2):
             yield finish(spec, 'ranked', [[a, '2']], [[b, '3']], ['exhaustive'])
             yield finish(spec, 'ranked', [[a, '2'], [b, '1']], [[b, '3']], ['exhaustive'])
+    subsets = [{'set': [c for c in range(3) if m >> c & 1]} for m in range(8)]
+    for spec in ({'c': 'ApprovalToSimpleVotes', 'split': False}, {'c': 'ApprovalToSimpleVotes', 'split': True},
+                 {'c': 'InvertedApprovalVotes'}, {'c': 'SubsettedVotes', 'subsetter': 'approval', 'subset': [0, 2], 'depth': 0}):
+        for a, b, c in itertools.product(subsets, repeat=3):
+            yield finish(spec, 'approval', [[a, '2'], [c, '1/2']], [[b, '3'], [c, '1']], ['exhaustive'])
+    scores = [{'set': sorted([c, ns(v)] for c, v in zip(range(3), vs) if v is not None)}
+              for vs in itertools.product([None, 0, 1, 2], repeat=3)]
+    for spec in ({'c': 'ScoreToRankedVotes', 'unscored_value': None}, {'c': 'ScoreToRankedVotes', 'unscored_value': '1'},
+                 {'c': 'ScoreToApprovalVotesThreshold', 'threshold': '1'},
+                 {'c': 'SubsettedVotes', 'subsetter': 'score', 'subset': [0, 2], 'depth': 0}):
+        for a, b in itertools.product(scores, repeat=2):
+            yield finish(spec, 'score', [[a, '2']], [[b, '3'], [a, '1/2']], ['exhaustive'])
 
 
 def shrink_candidates(case):
@@ -1291,7 +1331,7 @@ def shrink_candidates(case):
         for i in range(len(h)):
             other = 'B' if half == 'A' else 'A'
             new = {half: h[:i] + h[i + 1:], other: case[other]}
-            yield finish(case['conv'], case['kind'], new['A'], new['B'], [])
+            yield finish(case['conv'], case['kind'], new['A'], new['B'], [], dec=bool(case.get('dec')))
     if case['conv']['c'] == 'Chain' and len(case['conv']['cs']) > 1:
         yield finish({'c': 'Chain', 'cs': case['conv']['cs'][:-1]}, case['kind'], case['A'], case['B'], [])
 
